@@ -111,6 +111,32 @@ Proof.
   repeat split. exists [true]. split; reflexivity.
 Qed.
 
+(* when every default refers backwards (or to nothing that is declared) the loop of the code and
+   the repaired loop report the same: the finding is confined to forward and self references *)
+Definition backward_only (inputs : list decl) : Prop :=
+  forall i r, i < List.length inputs -> In r (snd (nth i inputs ("", []))) ->
+    mem r (names inputs) = true -> mem r (firstn i (names inputs)) = true.
+
+Lemma nth_map_any {A B} (g : A -> B) l i d d' : i < List.length l -> nth i (map g l) d = g (nth i l d').
+Proof.
+  revert i; induction l as [|x l IH]; intros [|i] H; cbn in *; try lia; [reflexivity|]. apply IH. lia.
+Qed.
+
+Theorem visit_agrees_when_backward inputs : backward_only inputs -> visit [] inputs = visit_repaired inputs.
+Proof.
+  intros B. rewrite visit_char. cbn [app]. unfold visit_repaired.
+  apply nth_ext with (d := []) (d' := []).
+  - now rewrite !map_length, seq_length.
+  - intros i Hi. rewrite map_length, seq_length in Hi.
+    rewrite (nth_map_any _ (seq 0 (List.length inputs)) i [] 0) by (rewrite seq_length; exact Hi).
+    rewrite seq_nth by exact Hi. cbn [Nat.add].
+    rewrite (nth_map_any _ inputs i [] ("", [])) by exact Hi.
+    apply map_ext_in. intros r Hr.
+    destruct (mem r (names inputs)) eqn:M.
+    + now rewrite (B i r Hi Hr M).
+    + now rewrite (mem_firstn_false r i _ M).
+Qed.
+
 (* --- correspondence ------------------------------------------------------ *)
 Definition run_defaults (inputs : list decl) : list tuple :=
   map (fun row => map (fun b : bool => if b then 1%N else 0%N) row) (visit [] inputs).
